@@ -51,7 +51,8 @@ FormalsOf(k, S) == LET idx == SetToSortSeq(S, <) IN
 
 AttrNames == [other |-> NameQN("ex", A, <<"attr">>), type |-> NamePL("prov", <<"type">>),
               label |-> NamePL("prov", <<"label">>), location |-> NamePL("prov", <<"location">>),
-              value |-> NamePL("prov", <<"value">>), role |-> NamePL("prov", <<"role">>)]
+              value |-> NamePL("prov", <<"value">>), role |-> NamePL("prov", <<"role">>),
+              timeish |-> NameQN("ex", A, <<"startTime">>)]
 Vals ==
   [ str |-> <<[t |-> "str", v |-> "s1"]>>, empty |-> <<[t |-> "str", v |-> "e"]>>,
     int |-> <<[t |-> "int", v |-> "1"]>>, big |-> <<[t |-> "int", v |-> "7"]>>,
@@ -60,6 +61,11 @@ Vals ==
     uri |-> <<[t |-> "uri", u |-> A \o Y]>>, qn |-> <<Ref(NameQN("ex", A, Y))>>,
     qnew |-> <<Ref(NameQN("zz", C, Y))>>,
     lang |-> <<[t |-> "lang", v |-> "s1", lang |-> "en"]>>,
+    qndflt |-> <<Ref(NameQN("", C, Y))>>,
+    fone |-> <<[t |-> "float", v |-> "1"]>>,
+    twosub |-> <<Ref(NameQN("prov", ProvNS, <<"Person">>)), Ref(NameQN("prov", ProvNS, <<"Organization">>))>>,
+    twosubE |-> <<Ref(NameQN("prov", ProvNS, <<"Plan">>)), Ref(NameQN("prov", ProvNS, <<"Collection">>))>>,
+    typetwo |-> <<Ref(NameQN("prov", ProvNS, <<"Person">>)), Ref(NameQN("ex", A, Y))>>,
     emptylang |-> <<[t |-> "lang", v |-> "e", lang |-> "en"]>>,
     emptylit |-> <<[t |-> "lit", v |-> "e", dt |-> QN("ex", A, <<"dtype">>)]>>,
     zero |-> <<[t |-> "int", v |-> "0"], [t |-> "float", v |-> "h"]>>,
@@ -76,8 +82,10 @@ ValueClasses == DOMAIN Vals
 ExtraSet ==
   CASE ExtraPreset = "min"    -> {<<"other", "none">>, <<"other", "two">>, <<"other", "nasty">>}
     [] ExtraPreset = "values" -> {<<"other", v>> : v \in ValueClasses}
-    [] ExtraPreset = "attrs"  -> {<<a, v>> : a \in DOMAIN AttrNames, v \in {"str", "qn", "int", "subtype"}}
-    [] ExtraPreset = "all"    -> {<<a, v>> : a \in DOMAIN AttrNames, v \in ValueClasses}
+    [] ExtraPreset = "attrs"  -> {<<a, v>> : a \in DOMAIN AttrNames \ {"timeish"}, v \in {"str", "qn", "int", "subtype"}}
+                                 \cup {<<"timeish", "dt">>, <<"value", "dt">>, <<"location", "dt">>, <<"type", "twosub">>,
+                                       <<"type", "twosubE">>, <<"type", "typetwo">>, <<"type", "uri">>, <<"location", "lang">>}
+    [] ExtraPreset = "all"    -> {<<a, v>> : a \in DOMAIN AttrNames \ {"timeish"}, v \in ValueClasses} \cup {<<"timeish", "dt">>}
 (* PROV-XML types prov:label as a string: only plain and language-tagged labels are XML-expressible *)
 XmlOK(e) == ("xml" \notin Fmts) \/ e[1] # "label" \/ e[2] \in {"str", "empty", "lang", "none", "nasty", "nastylang"}
 (* FinalOp = "Export" (C13): Fmts is the set of exporters; every ordered pair and a triple repetition *)
@@ -90,7 +98,7 @@ DotFinal == {[op |-> "Dot", h |-> "d1",
 (* One flag at a time over a neutral base, plus everything at once.                            *)
 FBase == [arr1 |-> FALSE, recarr |-> FALSE, int |-> "bare", bool |-> "bare", str |-> "bare", float |-> "typed",
           qn |-> "PROV", bprefix |-> FALSE, keys |-> "asis", indent |-> FALSE, subtype |-> FALSE, comment |-> FALSE,
-          member |-> FALSE, bodykeys |-> "asis", localns |-> ""]
+          member |-> FALSE, bodykeys |-> "asis", localns |-> "", eltype |-> FALSE]
 FlagSets ==
   { FBase, [FBase EXCEPT !.arr1 = TRUE], [FBase EXCEPT !.recarr = TRUE], [FBase EXCEPT !.int = "typed"],
     [FBase EXCEPT !.int = "typedstr"], [FBase EXCEPT !.int = "long"], [FBase EXCEPT !.bool = "typed"],
@@ -99,9 +107,11 @@ FlagSets ==
     [FBase EXCEPT !.indent = TRUE], [FBase EXCEPT !.subtype = TRUE], [FBase EXCEPT !.comment = TRUE],
     [FBase EXCEPT !.member = TRUE], [FBase EXCEPT !.member = TRUE, !.bodykeys = "reversed"],
     [FBase EXCEPT !.bodykeys = "reversed"], [FBase EXCEPT !.localns = "new"], [FBase EXCEPT !.localns = "rebind"],
+    [FBase EXCEPT !.float = "intnum"], [FBase EXCEPT !.bool = "typednum"], [FBase EXCEPT !.eltype = TRUE],
+    [FBase EXCEPT !.eltype = TRUE, !.subtype = TRUE],
     [arr1 |-> TRUE, recarr |-> TRUE, int |-> "typedstr", bool |-> "typedstr", str |-> "typed", float |-> "typedstr",
      qn |-> "PROV", bprefix |-> TRUE, keys |-> "reversed", indent |-> TRUE, subtype |-> TRUE, comment |-> TRUE,
-     member |-> TRUE, bodykeys |-> "reversed", localns |-> "new"] }
+     member |-> TRUE, bodykeys |-> "reversed", localns |-> "new", eltype |-> TRUE] }
 LoadFinal == {[op |-> "Load", h |-> "d1", fmt |-> f, fl |-> x] : f \in Fmts, x \in FlagSets}
 Final == IF FinalOp = "Load" THEN LoadFinal ELSE IF FinalOp = "Dot" THEN DotFinal ELSE IF FinalOp = "Export"
          THEN {[op |-> "Export", h |-> "d1", seq |-> q] : q \in ExportSeqs}
@@ -161,7 +171,8 @@ RdfSecond ==
   \cup RdfRelMenu("d1")
   \cup (IF "b1" \in DOMAIN ms.con
         THEN { [op |-> "NewRec", h |-> "b1", k |-> "agent", via |-> "new_record",
-                id |-> <<NamePL("ex", <<"ag">>)>>, formals |-> <<>>, extras |-> <<>>] } \cup RdfRelMenu("b1")
+                id |-> <<NamePL("ex", <<"ag">>)>>, formals |-> <<>>, extras |-> <<>>],
+               [hist[NSetup + 1] EXCEPT !.h = "b1"] } \cup RdfRelMenu("b1")
         ELSE {})
 (* every bundle of an expressible document is non-empty *)
 (* and no subject carries an identified and an anonymous relation of one kind *)
